@@ -554,4 +554,178 @@ def rangeFrom (dO dS : Data) (mins maxs : List (String × String)) : Option Rat 
                            npMax2 (rangeTerm dO dS u0) (rangeTerm dO dS u1))
   | _, _ => (none, none)
 
+/-! ### `Surrogates.test_mutual_information` for data with infinities (round 5)
+
+The wrapper `_test_mutual_information` (timeseries `numerics.pyx`) from the two float64 arrays down
+to the kernel, over IEEE values (`XR`: NaN, `-inf`, `+inf`, finite exact):
+
+    range_min = np.min((original_data.min(), surrogates.min()))
+    range_max = np.max((original_data.max(), surrogates.max()))
+    scaling = 1. / (range_max - range_min)          # ZeroDivisionError for 0 (cdivision is off)
+
+`min` / `max` of NumPy propagate NaN.  The terms of the range are taken from where the *generated*
+tables `tmi_range_min`, `tmi_range_max`, `tmi_scaling` (translate/c20_py.py) say. -/
+abbrev XData := List (List XR)
+
+def XData.at (d : XData) (i k : Nat) : XR := (d.getD i []).getD k .nan
+
+/-- `np.min((a, b))`, also one step of `ndarray.min()`: NaN if one side is NaN -/
+def XR.min2 (a b : XR) : XR :=
+  if a.isNan || b.isNan then .nan else if XR.le b a then b else a
+def XR.max2 (a b : XR) : XR :=
+  if a.isNan || b.isNan then .nan else if XR.le a b then b else a
+
+/-- `ndarray.min()` / `.max()` of the flattened array (the wrapper has rejected empty arrays; the
+empty list is given NaN here) -/
+def xrMin (xs : List XR) : XR := xs.foldl XR.min2 (xs.headD .nan)
+def xrMax (xs : List XR) : XR := xs.foldl XR.max2 (xs.headD .nan)
+
+/-- `1. / d` on C doubles under Cython's default `cdivision=False`: `none` is ZeroDivisionError;
+`1/±inf = ±0` (the sign of zero is immaterial for the symbols) -/
+def XR.recip : XR → Option XR
+  | .nan => some .nan
+  | .pinf => some (.fin 0)
+  | .ninf => some (.fin 0)
+  | .fin r => if r = 0 then none else some (.fin (1 / r))
+
+/-- one term of the range as the generated tables name it: (array, "min" | "max") -/
+def rangeTermX (dO dS : XData) (t : String × String) : XR :=
+  let a := if t.1 == "original_data" then dO.flatten else dS.flatten
+  if t.2 == "min" then xrMin a else xrMax a
+
+/-- combine two terms with the NumPy function the source names -/
+def combineX (fn : String) (x y : XR) : Option XR :=
+  if fn == "np.min" then some (XR.min2 x y) else if fn == "np.max" then some (XR.max2 x y) else none
+
+/-- `(range_min, range_max)` as the wrapper computes them from the generated terms; `none` when the
+source has a form the model cannot evaluate -/
+def rangeFromX (dO dS : XData) (rmin rmax : String × List (String × String)) : Option (XR × XR) :=
+  match rmin.2, rmax.2 with
+  | [t0, t1], [u0, u1] =>
+      match combineX rmin.1 (rangeTermX dO dS t0) (rangeTermX dO dS t1),
+            combineX rmax.1 (rangeTermX dO dS u0) (rangeTermX dO dS u1) with
+      | some a, some b => some (a, b)
+      | _, _ => none
+  | _, _ => none
+
+/-- the float→int conversion executed for one sample (if any) is defined: the rescaled value is not
+`-inf`, and a finite one below 1 truncates into the target type -/
+def convOKX (bits : Nat) (s m : XR) (nb : Int) (x : XR) : Bool :=
+  match XR.mul s (XR.sub x m) with
+  | .fin r => if r < 1 then castDefined bits (r * (nb : Rat)) else true
+  | .ninf => false
+  | _ => true
+
+def convsOKX (bits N T : Nat) (s m : XR) (nb : Int) (d : Nat → Nat → XR) : Bool :=
+  (List.range N).all fun i => (List.range T).all fun k => convOKX bits s m nb (d i k)
+
+/-- `_test_mutual_information_fast` with `scaling = s`, `range_min = m` on two `(N, T)` arrays of
+IEEE values and the work arrays the wrapper allocates -/
+def tmiKernelX (s m : XR) (N T : Nat) (nb : Int) (dO dS : XData) : Verdict :=
+  if convsOKX 32 N T s m nb dO.at && convsOKX 32 N T s m nb dS.at then
+    verdictOf (tmiSizes N T N T nb.toNat)
+      (tmiTrace N T nb.toNat (fun i k => (symbolX s m nb (dO.at i k)).getD 0)
+                             (fun i k => (symbolX s m nb (dS.at i k)).getD 0))
+  else .oob
+
+/-- `Surrogates.test_mutual_information(original_data, surrogates, n_bins)` for arrays of shapes
+`(N, T)`, `(N2, T2)` holding any IEEE values; rejections as in `tmiCall`; the range terms and the
+scaling expression are parameters (the generated `tmi_range_min`, `tmi_range_max`, `tmi_scaling`).
+A source form the model cannot evaluate is answered `oob` (not covered — the theorem then fails). -/
+def tmiCallX (rmin rmax : String × List (String × String)) (scal : String)
+    (N T N2 T2 : Nat) (nb : Int) (dO dS : XData) : Verdict :=
+  if nb < 1 then .raise
+  else if (N2, T2) ≠ (N, T) then .raise
+  else if (2 : Int) ^ 31 ≤ nb then .raise
+  else if N * T = 0 then .raise
+  else if scal != "1.0 / (range_max - range_min)" then .oob
+  else
+    match rangeFromX dO dS rmin rmax with
+    | none => .oob
+    | some (mn, mx) =>
+        match XR.recip (XR.sub mx mn) with
+        | none => .raise
+        | some s => tmiKernelX s mn N T nb dO dS
+
+/-- `Option Rat` data (NaN | finite) as IEEE values -/
+def XR.ofOpt : Option Rat → XR
+  | none => .nan
+  | some r => .fin r
+
+/-! ### round 5, continued: the climate kernel on IEEE data; the two surrogate tests with every
+size and shape test read off the generated tables -/
+
+/-- `_mutual_information` with `scaling = s`, `range_min = m` (C `float`s, any IEEE value) on an
+`(N, T)` float32 array of IEEE values and the work arrays the wrapper allocates; `(long)` conversions -/
+def miKernelX (s m : XR) (N T : Nat) (nb : Int) (d : XData) : Verdict :=
+  if convsOKX 64 N T s m nb d.at then
+    verdictOf (miSizes N T nb.toNat)
+      (miTrace N T nb.toNat (fun i k => (symbolX s m nb (d.at i k)).getD 0))
+  else .oob
+
+/-- what a Python method does before it calls its raw-pointer Cython wrapper, as far as the sizes go -/
+inductive Front
+  | raise                    -- a shape test of the method fails
+  | sizes (Np Tp : Nat)      -- the two integers handed to the wrapper
+  | unknown                  -- a source the model cannot evaluate
+deriving Repr, DecidableEq
+
+/-- `checks`: pairs of pointer positions whose arrays must have equal shapes (generated
+`…_pychecks`); `rows`: where the integers `nName`, `tName` are taken from (generated `…_pysizes`) -/
+def pyFront (rows : List SizeRow) (checks : List (Nat × Nat)) (nName tName : String)
+    (shapes : List (List Nat)) : Front :=
+  if checks.any (fun c => shapes.getD c.1 [] != shapes.getD c.2 []) then .raise
+  else
+    match resolveSize rows nName shapes 0, resolveSize rows tName shapes 0 with
+    | some a, some b => .sizes a b
+    | _, _ => .unknown
+
+/-- `Surrogates.test_pearson_correlation(original_data (N, T), surrogates (N2, T2))` with the shape
+test and the integers `N`, `n_time` as the generated tables give them; `correlation` is allocated
+`(N, N)` from the integer, `norm = 1.0 / float(n_time)` raises for 0 -/
+def pearsonObjCall (rows : List SizeRow) (checks : List (Nat × Nat)) (N T N2 T2 : Nat) : Verdict :=
+  match pyFront rows checks "N" "n_time" [[N, T], [N2, T2]] with
+  | .raise => .raise
+  | .unknown => .oob
+  | .sizes Np Tp =>
+      if Tp = 0 then .raise
+      else verdictOf [N * T * 8, N2 * T2 * 8, Np * Np * 4] (pearsonTrace Np Tp)
+
+/-- entry `idx` of the row-major array `d`; outside: foreign memory (NaN here — the load itself is
+already out of bounds) -/
+def XData.flatAt (d : XData) (idx : Nat) : XR := d.flatten.getD idx .nan
+
+/-- `Surrogates.test_mutual_information` with *everything* the translator reads as a parameter:
+size sources and shape tests (`tmi_pysizes`, `tmi_pychecks`), range terms and scaling expression.
+When the integers are the axes of both arrays this is `tmiCallX`; otherwise the work arrays are
+allocated from the integers and the samples are read at the flat offsets the kernel forms. -/
+def tmiObjCallX (rows : List SizeRow) (checks : List (Nat × Nat))
+    (rmin rmax : String × List (String × String)) (scal : String)
+    (N T N2 T2 : Nat) (nb : Int) (dO dS : XData) : Verdict :=
+  if nb < 1 then .raise
+  else
+    match pyFront rows checks "N" "n_time" [[N, T], [N2, T2]] with
+    | .raise => .raise
+    | .unknown => .oob
+    | .sizes Np Tp =>
+        if Np = N ∧ Tp = T ∧ N2 = N ∧ T2 = T then tmiCallX rmin rmax scal N T N2 T2 nb dO dS
+        else if (2 : Int) ^ 31 ≤ nb then .raise
+        else if N * T = 0 ∨ N2 * T2 = 0 then .raise        -- `.min()` of an empty array
+        else if scal != "1.0 / (range_max - range_min)" then .oob
+        else
+          match rangeFromX dO dS rmin rmax with
+          | none => .oob
+          | some (mn, mx) =>
+              match XR.recip (XR.sub mx mn) with
+              | none => .raise
+              | some s =>
+                  let fO := fun i k => dO.flatAt (i * Tp + k)
+                  let fS := fun i k => dS.flatAt (i * Tp + k)
+                  if convsOKX 32 Np Tp s mn nb fO && convsOKX 32 Np Tp s mn nb fS then
+                    verdictOf [N * T * 8, N2 * T2 * 8, Np * Tp * 4, Np * Tp * 4,
+                               Np * nb.toNat * 4, Np * nb.toNat * 4, nb.toNat * nb.toNat * 4, Np * Np * 4]
+                      (tmiTrace Np Tp nb.toNat (fun i k => (symbolX s mn nb (fO i k)).getD 0)
+                                               (fun i k => (symbolX s mn nb (fS i k)).getD 0))
+                  else .oob
+
 end Pyunicorn.Access
